@@ -95,3 +95,18 @@ class TRSElemSeq(T):
             return {'len': n, 'elements': out}
         seq.concretize = concretize
         return GhostList(seq, tag=name)
+
+
+def trs_dict_ok(d):
+    """class invariant of a TRS dict, as a contract clause (proved for TRS.trs_to_dict in C12, assumed for the elements
+    of containers in C17/C18)"""
+    return (
+        ((d['twp_num'] is None) == (d['twp_ns'] is None))
+        and (d['twp_num'] is None or (0 <= d['twp_num'] and d['twp_num'] <= 999 and (d['twp_ns'] == 'n' or d['twp_ns'] == 's')))
+        and ((d['rge_num'] is None) == (d['rge_ew'] is None))
+        and (d['rge_num'] is None or (0 <= d['rge_num'] and d['rge_num'] <= 999 and (d['rge_ew'] == 'e' or d['rge_ew'] == 'w')))
+        and (d['sec_num'] is None or (0 <= d['sec_num'] and d['sec_num'] <= 99))
+        and (not d['twp_undef'] or d['twp_num'] is None)
+        and (not d['rge_undef'] or d['rge_num'] is None)
+        and (not d['sec_undef'] or d['sec_num'] is None)
+    )
